@@ -10,7 +10,8 @@ import HawkModel.Gen.CallGraph
       every closed walk of plain calls.
     * `unguarded_acyclic`, `hawk_plain_calls_acyclic`, `hawk_stack_bounded_partial`: the instance for libhawk.
       PARTIAL: the residual edges (unguarded recursion cycles: `Gen.residualGroups`) are excluded; they are real,
-      see `residual_walks_closed` + `closed_walk_unbounded`, and must all be known (`residual_groups_known`).
+      see `residual_walks_closed` + `closed_walk_unbounded`, and must all be known (`residual_groups_known`,
+      `residual_edges_known`: group by group and call site by call site).
     * `defaults_positive`, `cli_limits_enforced`, `model_defaults_match`.
   Behavioural half (over the counter arithmetic of `Depth`): `guard_threshold`, `descend_iff_fits`,
   `stack_guard_threshold`, `reject_iff_exceeds`, `reject_names_exceeded_limit`, `within_limit_unaffected`,
@@ -116,6 +117,31 @@ def knownUnguarded : List String :=
   ["hawk_clrpt", "hawk_rtx_refdownval", "parse_statement", "print_expr", "print_stmts", "run_statement"]
 
 theorem residual_groups_known : ∀ g ∈ CallGraph.residualGroups, g ∈ knownUnguarded := by decide
+
+/-- ids (crc32 of `caller -> callee [case label] (arguments) #occurrence`, see `CallGraph.residualSites`) of the call
+    sites that make up the known unguarded cycles.  `residual_groups_known` cannot see a recursive call that is added
+    inside a function which already is on a known cycle (e.g. hawk_clrpt following one more field); this table does.
+    Regenerate with `python3 extract/callgraph.py --sites` after a reviewed change; removing sites (a repair) needs no
+    update. -/
+def knownResidualSiteIds : List Nat := [
+  4910062, 7354501, 27057555, 89814030, 109459226, 164522915, 300311399, 419941458,
+  472273140, 483499737, 484911450, 490934495, 519682834, 546356594, 570527602, 583685268,
+  657953312, 717221731, 744145359, 770135888, 802894717, 826162348, 848992113, 891567567,
+  1085377227, 1108807182, 1149179490, 1185593408, 1203528065, 1249646398, 1256039768, 1270940016,
+  1307742785, 1327925182, 1340184560, 1373207877, 1403368870, 1429209767, 1476495419, 1480400543,
+  1485087434, 1509651496, 1540725737, 1569036070, 1628821084, 1656803284, 1663141689, 1791931288,
+  1824372499, 1845846751, 1886009214, 1968928514, 2004557919, 2094605236, 2135141319, 2146829993,
+  2164569080, 2185566364, 2219458917, 2238735505, 2245578595, 2291232089, 2306183753, 2310903865,
+  2358858287, 2377967218, 2422221530, 2580352888, 2599256474, 2658383315, 2713726608, 2720964984,
+  2722429466, 2726534275, 2781423069, 2817749248, 2826561837, 2848457496, 2862186312, 2916399133,
+  2958809691, 3002420710, 3012024355, 3070625408, 3125925725, 3161274605, 3171627600, 3175074940,
+  3233990904, 3269249619, 3286730014, 3375188986, 3393763215, 3403435554, 3425467926, 3447424282,
+  3502668978, 3534915141, 3569176767, 3576256680, 3613736371, 3662180466, 3667301077, 3674715529,
+  3722564936, 3731263283, 3834863945, 3849371412, 3863673469, 3875493651, 3935384455, 3960007458,
+  4048297145, 4067150916, 4074445382, 4146190413, 4169799292, 4232014224, 4269517805
+]
+
+theorem residual_edges_known : ∀ i ∈ CallGraph.residualSiteIds, i ∈ knownResidualSiteIds := by decide +kernel
 
 /-- (3) the limits that the guards of the code read are finite (> 0) under the CLI defaults, and the value-stack
     limit has a positive default not below its positive minimum -/
